@@ -30,14 +30,14 @@ pub fn check_c01(prog: &Prog, m: &dyn DynModel) -> Result<(), Fail> {
     }
 }
 
-struct FieldInfo {
+pub(crate) struct FieldInfo {
     /// Some(rel) for relation indices, None + sort for type sets
-    rel: Option<usize>,
-    sort: Option<usize>,
-    new: bool,
+    pub(crate) rel: Option<usize>,
+    pub(crate) sort: Option<usize>,
+    pub(crate) new: bool,
     /// diagonal pattern: representative column for each column (None = plain index)
-    eqs: Option<Vec<usize>>,
-    order: Vec<usize>,
+    pub(crate) eqs: Option<Vec<usize>>,
+    pub(crate) order: Vec<usize>,
 }
 
 fn parse_nums(s: &str) -> Option<Vec<usize>> {
@@ -47,7 +47,7 @@ fn parse_nums(s: &str) -> Option<Vec<usize>> {
     s.split('_').map(|x| x.parse::<usize>().ok()).collect()
 }
 
-fn parse_field(p: &Program, field: &str) -> Option<FieldInfo> {
+pub(crate) fn parse_field(p: &Program, field: &str) -> Option<FieldInfo> {
     // longest matching relation / sort name
     let mut best: Option<(usize, Option<usize>, Option<usize>)> = None; // (name len, rel, sort)
     for r in 0..p.rels.len() {
@@ -86,7 +86,7 @@ fn parse_field(p: &Program, field: &str) -> Option<FieldInfo> {
 }
 
 /// Reconstructs the rows denoted by an index copy.
-fn rows_of(fi: &FieldInfo, arity: usize, tuples: &[Vec<u32>]) -> Result<BTreeSet<Vec<u32>>, String> {
+pub(crate) fn rows_of(fi: &FieldInfo, arity: usize, tuples: &[Vec<u32>]) -> Result<BTreeSet<Vec<u32>>, String> {
     let mut out = BTreeSet::new();
     for t in tuples {
         if t.len() != fi.order.len() {
@@ -128,7 +128,7 @@ fn rows_of(fi: &FieldInfo, arity: usize, tuples: &[Vec<u32>]) -> Result<BTreeSet
     Ok(out)
 }
 
-fn satisfies(eqs: &[usize], row: &[u32]) -> bool {
+pub(crate) fn satisfies(eqs: &[usize], row: &[u32]) -> bool {
     (0..row.len()).all(|c| row[c] == row[eqs[c]])
 }
 
